@@ -65,11 +65,29 @@ def _r1(ctx):
                          text=f.qualname)
 
 
-def _interval(e):
+def _comp_names(comp):
+    """comprehension variable -> attribute it iterates over:  for R12 in h.R12  /  for a, b in zip(h.R12, h.R23)"""
+    out = {}
+    for g in getattr(comp, "generators", []):
+        it, tg = g.iter, g.target
+        if isinstance(tg, ast.Name) and isinstance(it, ast.Attribute):
+            out[tg.id] = it.attr
+        elif isinstance(tg, ast.Tuple) and isinstance(it, ast.Call) and call_name(it) == "zip":
+            for a, b in zip(tg.elts, it.args):
+                if isinstance(a, ast.Name) and isinstance(b, ast.Attribute):
+                    out[a.id] = b.attr
+    return out
+
+
+def _interval(e, names=None):
     """(a, b) tuple or pd.Interval(a, b) -> (text a, text b)"""
+    names = names or {}
+
     def t(x):
+        if isinstance(x, ast.Name) and x.id in names:
+            return names[x.id]
         s = norm_text(x)
-        return {"np.inf": "inf", "-np.inf": "-inf", "1.0": "1", "0.0": "0"}.get(s, s.replace("h.", ""))
+        return {"np.inf": "inf", "-np.inf": "-inf", "1.0": "1", "0.0": "0"}.get(s, s.split(".")[-1] if isinstance(x, ast.Attribute) else s)
     if isinstance(e, ast.Tuple) and len(e.elts) == 2:
         return (t(e.elts[0]), t(e.elts[1]))
     if isinstance(e, ast.Call) and call_name(e) == "pd.Interval" and len(e.args) == 2:
@@ -94,8 +112,16 @@ def _r2(ctx):
                 and s.targets[0].value.attr == "iloc":
             c = [c for c in calls_in(s.targets[0].slice) if isinstance(c.func, ast.Attribute) and c.func.attr == "get_indexer_for"]
             if c and isinstance(c[0].args[0], ast.List) and len(c[0].args[0].elts) == 1:
-                stores[const_value(c[0].args[0].elts[0])] = (s, norm_text(s.value))
-    init = [s for s in f.node.body if isinstance(s, ast.Assign) and isinstance(s.targets[0], ast.Name) and s.targets[0].id == "haigh"]
+                val = s.value
+                if isinstance(val, ast.Name):
+                    dd = [x for x in f.node.body if isinstance(x, ast.Assign) and isinstance(x.targets[0], ast.Name)
+                          and x.targets[0].id == val.id]
+                    if len(dd) == 1 and isinstance(dd[0].value, ast.Attribute):
+                        val = ast.Name(id=dd[0].value.attr, ctx=ast.Load())
+                stores[const_value(c[0].args[0].elts[0])] = (s, norm_text(val))
+                series_name = s.targets[0].value.value.id if isinstance(s.targets[0].value.value, ast.Name) else None
+    init = [s for s in f.node.body if isinstance(s, ast.Assign) and isinstance(s.targets[0], ast.Name) and stores and
+            s.targets[0].id == series_name]
     init0 = init and isinstance(init[0].value, ast.Call) and const_value(init[0].value.args[0]) == 0.0
     got = {}
     for pos, iv in enumerate(ivs):
@@ -125,41 +151,43 @@ def _r2(ctx):
         ctx.violated(f, d[0] if d else f.node, "default for M2 is not M/3 (applied only when M2 is missing)")
     # five-segment
     g = prog.func(MS + ":HaighDiagram.five_segment")
-    locs = {}
-    for s in g.node.body:
-        if isinstance(s, ast.Assign) and isinstance(s.targets[0], ast.Name) and s.targets[0].id.endswith("_locs"):
-            c = [c for c in calls_in(s.value) if isinstance(c.func, ast.Attribute) and c.func.attr == "get_indexer_for"]
-            if c:
-                a = c[0].args[0]
-                iv = None
-                if isinstance(a, ast.List) and len(a.elts) == 1:
-                    iv = _interval(a.elts[0])
-                elif isinstance(a, ast.ListComp):
-                    iv = _interval(a.elt)
-                locs[s.targets[0].id[:-5]] = (s, iv)
     want5 = {"M0": ("-inf", "0"), "M1": ("0", "R12"), "M2": ("R12", "R23"), "M3": ("R23", "1"), "M4": ("1", "inf")}
-    if set(locs) != set(want5):
-        raise AnalysisError("five_segment: locator definitions %s" % sorted(locs))
-    for k, iv in want5.items():
-        if locs[k][1] == iv:
-            ctx.holds(g, locs[k][0], "five-segment: %s on (%s, %s]" % (k, iv[0], iv[1]))
-        else:
-            ctx.violated(g, locs[k][0], "five-segment: %s is located on %s, expected (%s, %s]" % (k, locs[k][1], iv[0], iv[1]))
-    n_ok = 0
+    seen = {}
     for s in g.node.body:
         if isinstance(s, ast.Assign) and isinstance(s.targets[0], ast.Subscript) and isinstance(s.targets[0].value, ast.Attribute) \
                 and s.targets[0].value.attr == "iloc" and isinstance(s.targets[0].slice, ast.Name):
-            lk = s.targets[0].slice.id[:-5]
+            loc = s.targets[0].slice.id
             v = s.value
             ok = isinstance(v, ast.Subscript) and isinstance(v.value, ast.Attribute) and v.value.attr == "iloc" and \
-                isinstance(v.value.value, ast.Attribute) and v.value.value.attr == lk and isinstance(v.slice, ast.Name) and \
-                v.slice.id == lk + "_locs"
-            if ok:
-                n_ok += 1
-                ctx.holds(g, s, "five-segment: rows of %s receive %s" % (lk, lk))
-            else:
-                ctx.violated(g, s, "five-segment: rows located for %s receive %s" % (lk, norm_text(v)))
-    mk = [n for n in ast.walk(g.node) if isinstance(n, ast.FunctionDef) and n.name == "make_index"]
+                isinstance(v.value.value, ast.Attribute) and isinstance(v.slice, ast.Name) and v.slice.id == loc
+            if not ok:
+                ctx.violated(g, s, "five-segment: rows %s receive %s, not the slope column at the same rows" % (loc, norm_text(v)))
+                continue
+            k = v.value.value.attr
+            d = [x for x in g.node.body if isinstance(x, ast.Assign) and isinstance(x.targets[0], ast.Name) and x.targets[0].id == loc]
+            iv = None
+            if len(d) == 1:
+                c = [c_ for c_ in calls_in(d[0].value) if isinstance(c_.func, ast.Attribute) and c_.func.attr == "get_indexer_for"]
+                if c:
+                    a = c[0].args[0]
+                    if isinstance(a, ast.List) and len(a.elts) == 1:
+                        iv = _interval(a.elts[0])
+                    elif isinstance(a, ast.ListComp):
+                        iv = _interval(a.elt, _comp_names(a))
+            seen[k] = (s, iv)
+    if set(seen) != set(want5):
+        if not seen:
+            raise AnalysisError("five_segment: slope stores not found")
+        ctx.violated(g, g.node, "five-segment: slopes %s are stored, expected %s" % (sorted(seen), sorted(want5)), text="five-segment slopes")
+    for k, iv in want5.items():
+        if k not in seen:
+            continue
+        if seen[k][1] == iv:
+            ctx.holds(g, seen[k][0], "five-segment: %s stored on the rows of (%s, %s]" % (k, iv[0], iv[1]))
+        else:
+            ctx.violated(g, seen[k][0], "five-segment: %s is stored on the rows of %s, expected (%s, %s]" % (k, seen[k][1], iv[0], iv[1]))
+    mk = [n for n in ast.walk(g.node) if isinstance(n, ast.FunctionDef) and n is not g.node and
+          len(calls_in(n, name="pd.Interval")) >= 5]
     if mk:
         ivs5 = sorted(_interval(c) for c in calls_in(mk[0], name="pd.Interval"))
         if ivs5 == sorted(want5.values()):
@@ -194,9 +222,20 @@ def _r3(ctx):
     if t not in ("R_goal == -np.inf",):
         raise AnalysisError("transformed_amplitude: unexpected branch condition %s" % t)
 
+    amp_n = [x.targets[0].id for x in f.node.body if isinstance(x, ast.Assign) and isinstance(x.targets[0], ast.Name)
+             and isinstance(x.value, ast.Attribute) and x.value.attr == "amplitude"]
+    mean_n = [x.targets[0].id for x in f.node.body if isinstance(x, ast.Assign) and isinstance(x.targets[0], ast.Name)
+              and amp_n and amp_n[0] in names_in(x.value) and any(isinstance(n, ast.Attribute) and n.attr == "R" for n in ast.walk(x.value))]
+    if len(amp_n) != 1 or len(mean_n) != 1:
+        raise AnalysisError("transformed_amplitude: amplitude / mean locals not identified")
+    free = sorted(names_in(general) - {amp_n[0], mean_n[0], "R_goal"})
+    if len(free) != 1:
+        raise AnalysisError("transformed_amplitude: slope variable not identified (%s)" % free)
+    canon = {amp_n[0]: "amp", mean_n[0]: "mean", free[0]: "M", "R_goal": "Rg"}
+
     def atom(e):
         if isinstance(e, ast.Name):
-            return {"R_goal": "Rg"}.get(e.id, e.id)
+            return canon.get(e.id, e.id)
         return None
     try:
         G = to_nf(general, atom=atom)
@@ -233,10 +272,10 @@ def _r3(ctx):
                      (S, RF(num1, den1) if not den1.is_zero() else None))
     # R <-> mean relation used in three places
     forms = []
-    md = [s for s in f.node.body if isinstance(s, ast.Assign) and isinstance(s.targets[0], ast.Name) and s.targets[0].id == "mean"]
+    md = [s for s in f.node.body if isinstance(s, ast.Assign) and isinstance(s.targets[0], ast.Name) and s.targets[0].id == mean_n[0]]
     if md:
         forms.append(("transformed_amplitude.mean", f, md[0], to_nf(md[0].value, atom=lambda e: (
-            "R" if isinstance(e, ast.Attribute) and e.attr == "R" else ("amp" if isinstance(e, ast.Name) and e.id == "amp" else None))) / RF.sym("amp")))
+            "R" if isinstance(e, ast.Attribute) and e.attr == "R" else ("amp" if isinstance(e, ast.Name) and e.id == amp_n[0] else None))) / RF.sym("amp")))
     fm = prog.functions.get(MS + ":_SegmentTransformer._distance_from_R_goal.fake_meanstress")
     if fm is not None:
         r = [s for s in fm.node.body if isinstance(s, ast.Return)][0]
@@ -322,7 +361,13 @@ def _r4(ctx):
                      "number of bins containing it)" % bad[:3], text="membership %s %s %s" % (first_op, other_op, right_op))
     g = prog.functions.get(MS + ":MeanstressTransformMatrix._rebin_results.resulting_intervals")
     ls = [c for c in calls_in(g.node, name="np.linspace")] if g else []
-    if len(ls) == 1 and const_value(ls[0].args[0]) == 0 and norm_text(ls[0].args[1]) == "ranges_max":
+    mx = None
+    if len(ls) == 1 and isinstance(ls[0].args[1], ast.Name):
+        dd = [x for x in g.node.body if isinstance(x, ast.Assign) and isinstance(x.targets[0], ast.Name) and
+              x.targets[0].id == ls[0].args[1].id]
+        mx = dd[0].value if len(dd) == 1 else None
+    if len(ls) == 1 and const_value(ls[0].args[0]) == 0 and isinstance(mx, ast.Call) and isinstance(mx.func, ast.Attribute) \
+            and mx.func.attr == "max" and isinstance(mx.func.value, ast.Name):
         ctx.holds(g, ls[0], "bins span [0, max range]; the first bin starts at 0 (closed on the left)")
     else:
         ctx.violated(g if g else f, ls[0] if ls else f.node, "re-binning edges do not span [0, max range] starting at 0")
